@@ -382,7 +382,24 @@ def memo_bases():
     return out
 
 
+def add_probes(rules, names):
+    """a zero-length extern probe at the start of the body of each named rule: the public-API
+    way of observing body evaluations (C06)"""
+    out = list(rules)
+    probes = {}
+    for i, n in enumerate(names):
+        pr = "P" + n
+        fn = "ext_probe_%d" % i
+        probes[n] = {"rule": pr, "fn": fn}
+        for r in out:
+            if r.name == n:
+                r.body = Seq(Call(pr), r.body)
+        out.append(ExternRule(pr, {"o": "zero", "path": "verif_common::oracles::" + fn, "nullable": True}))
+    return out, probes
+
+
 def fam_memo(tier, seed):
+    import copy
     rnd = random.Random(seed * 7919 + 4)
     maxlen = 4 if tier == "quick" else 5
     out = []
@@ -393,12 +410,13 @@ def fam_memo(tier, seed):
         if tier == "quick" and len(subsets) > 8:
             subsets = [subsets[0], subsets[-1]] + sample(rnd, subsets[1:-1], 6)
         for sub in subsets:
-            import copy
-            rs = copy.deepcopy(rules)
+            rs, probes = add_probes(copy.deepcopy(rules), memoizable)
             for r in rs:
-                r.memoize = r.name in sub
+                if r.kind == "rule":
+                    r.memoize = r.name in sub
             g = Grammar("memo_%04d" % len(out), rs, root="S", maxlen=maxlen,
-                        meta={"shape": name + "/" + "+".join(sub), "base": name, "memo": list(sub)})
+                        meta={"shape": name + "/" + "+".join(sub), "base": name, "memo": list(sub), "probes": probes,
+                              "nrules": len(memoizable), "all_memo": len(sub) == len(memoizable)})
             g.alpha = alpha
             if name == "nested_exp":
                 g.extra = [list("a" * 7), list("a" * 6 + "b")] if tier == "quick" else [list("a" * 10), list("a" * 9 + "c")]
@@ -446,6 +464,10 @@ def lr_bases():
                                Rule("N", Lit("n"), no_skip_ws=True)], "E", ["n", "+", "*"], True))
     out.append(("growth_stops_midway", [Rule("A", Choice(Seq(Call("A", "l", boxed=True), Lit("x"), Lit("y")), Lit("b")),
                                              export=True, no_skip_ws=True, leftrec=True)], "A", ["b", "x", "y"], True))
+    out.append(("lr_called_twice", [Rule("S", Choice(Seq(Call("E", "e"), Lit("x")), Seq(Call("E", "e"), Lit("y"))),
+                                         export=True, no_skip_ws=True),
+                                    Rule("E", Choice(Seq(Call("E", "l", boxed=True), Lit("+"), Lit("n")), Lit("n")),
+                                         no_skip_ws=True, leftrec=True)], "S", ["n", "+", "x", "y"], True))
     out.append(("neg_guard", [Rule("A", Choice(Seq(Call("A", "l", boxed=True), Lit("x")), Seq(Neg(Call("A")), Lit("b"))),
                                    export=True, no_skip_ws=True, leftrec=True)], "A", ["b", "x"], True))
     return out
